@@ -241,4 +241,41 @@ theorem rowReaderSlip_disc (nRead nKept : Nat) :
     disc (rowReaderProg true false nRead (nKept + 1)) = false := by
   simp [rowReaderProg, disc, disc_replicate_append, List.replicate_succ]
 
+/-! ## Page wrappers between the row reader and the buffer (MIRROR of convert.go:1117-1190)
+
+A row reader assembled from `ColumnChunks()` of a VIEW of row groups does not hold the decoded page
+itself but a wrapper around it: `ConvertRowGroup` installs a `convertedPage` for every column whose
+index differs between source and target (it re-numbers the values), and views nest. `clear()` calls
+`releaseAndDetachValues` on the outermost wrapper; the values buffer is left to the GC only if EVERY
+wrapper on the way passes the request on as `releaseAndDetachValues(p.page)`. A wrapper that answers
+with a plain `Release(p.page)` (or has no `ReleaseAndDetachValues` at all: `releaseAndDetachValues`
+then does nothing and `Release` would) turns the request into a put. `wrappers` lists, from the
+outside in, whether each wrapper forwards the detach. -/
+def chainHonours (wrappers : List Bool) : Bool := wrappers.all id
+
+def viewReaderProg (wrappers : List Bool) (byteArray : Bool) (nRead nKept : Nat) : List Op :=
+  rowReaderProg byteArray (chainHonours wrappers) nRead nKept
+
+/-- no wrappers: the row reader over the file's own column chunks -/
+theorem viewReaderProg_nil (byteArray : Bool) (nRead nKept : Nat) :
+    viewReaderProg [] byteArray nRead nKept = rowReaderProg byteArray true nRead nKept := rfl
+
+theorem viewReaderProg_disc (wrappers : List Bool) (h : ∀ w ∈ wrappers, w = true)
+    (byteArray : Bool) (nRead nKept : Nat) :
+    disc (viewReaderProg wrappers byteArray nRead nKept) = true := by
+  have hc : chainHonours wrappers = true := by
+    simp only [chainHonours, List.all_eq_true]
+    intro w hw; simp [h w hw]
+  simp only [viewReaderProg, hc]
+  exact rowReaderProg_disc _ _ _
+
+/-- one wrapper anywhere in the chain that does not forward the detach is enough -/
+theorem viewReaderSlip_disc (wrappers : List Bool) (h : false ∈ wrappers) (nRead nKept : Nat) :
+    disc (viewReaderProg wrappers true nRead (nKept + 1)) = false := by
+  have hc : chainHonours wrappers = false := by
+    simp only [chainHonours, List.all_eq_false]
+    exact ⟨false, h, by simp⟩
+  simp only [viewReaderProg, hc]
+  exact rowReaderSlip_disc _ _
+
 end PqModel.PoolProto
